@@ -735,7 +735,22 @@ impl OutSim {
 
     /// close the connection (EOF), wait for the session to end, connect a fresh pipe
     pub async fn reconnect_close(&mut self) {
-        self.pipe.push_eof();
+        if self.epoch % 3 == 2 {
+            // every third time the connection ends because the application disables the outstation; it is
+            // enabled again before the next connection (with a decode-level message in between)
+            let _ = self.handle.disable().await;
+            settle().await;
+            let _ = self
+                .handle
+                .set_decode_level(crate::verif::checks::common::decode_level(
+                    self.cfg.decode + self.epoch as usize,
+                ))
+                .await;
+            let _ = self.handle.enable().await;
+            crate::verif::out::count("reconnect_by_disable", 1);
+        } else {
+            self.pipe.push_eof();
+        }
         settle().await;
         let _ = self.collect();
         let (pipe, phys) = io::phys_pipe(Some(self.clock.epoch));
